@@ -504,6 +504,36 @@ func runC01(c *core.Ctx) {
 				}
 			}
 		}
+		// a recipe that resolves to nothing (no ingredients, or only such recipes) is still a recipe: logged, it is
+		// expanded into its (zero) elements and does not stand for itself
+		for _, rec := range b {
+			if es, defined := want[rec.Name]; defined && len(es) == 0 {
+				lfiles := map[string]string{"loge.yaml": gen.RenderLog(gen.Log{{Date: gen.Date{Y: 2021, M: 1, D: 24}, Ents: []gen.Ent{{Name: rec.Name, Val: gen.Half(4)}}}}, "2006/01/02", nil)}
+				srv.Write(lfiles)
+				for ri, rr := range regRenderers {
+					eargs := append([]string{"--no-color", "-d", "food.yaml", "-l", "loge.yaml"}, rr.args...)
+					eres := srv.App1(eargs, nil)
+					c.Eval(1)
+					c.Count("cli_recipe_that_resolves_to_nothing", 1)
+					days, perr := rr.parse(eres.Out)
+					bad := ""
+					switch {
+					case eres.Exit != 0 || perr != nil:
+						bad = fmt.Sprintf("exit %d, parse error %v", eres.Exit, perr)
+					case len(days) != 1 || len(days[0].Foods) != 1:
+						bad = fmt.Sprintf("%d days shown", len(days))
+					case len(days[0].Foods[0].Ingredients) != 0 || len(days[0].Totals) != 0:
+						bad = fmt.Sprintf("%d ingredient rows %v and %d totals rows under a recipe that resolves to nothing", len(days[0].Foods[0].Ingredients), nvNames(days[0].Foods[0].Ingredients), len(days[0].Totals))
+					}
+					if bad != "" {
+						c.Violation(rr.name+"|empty-recipe-stands-for-itself", fmt.Sprintf("recipe %q resolves to no element; %s", rec.Name, bad), caseDoc{Files: map[string]string{"food.yaml": text, "loge.yaml": lfiles["loge.yaml"]}, Args: eargs, Observed: resDoc(eres)})
+						break
+					}
+					_ = ri
+				}
+				break
+			}
+		}
 		if i < 2 {
 			c.Sample(map[string]any{"part": "cli", "food.yaml": text, "args": joinArgs(args), "stdout": clip(res.Out, 600)})
 		}
